@@ -766,6 +766,8 @@ type hist struct {
 	// datax: run once at the start of the next application callback (while the engine is in the middle
 	// of delivering a packet)
 	onCb func()
+	// express: the application's reused name buffer
+	nameBuf enc.Name
 }
 
 func (h *hist) rel(t time.Time) int64 { return t.Sub(h.start).Microseconds() }
@@ -929,6 +931,11 @@ func (h *hist) execOp(op string) string {
 		h.face.fail = f[0] == "expressf"
 		defer func() { h.face.fail, h.face.answer = false, nil }()
 		label, name, cbp := f[1], common.ParseNameText(f[2]), f[3] == "1" || f[3] == "3"
+		// the application builds every name in ONE reused buffer (as tools/pingclient and the sync
+		// code do: overwrite the last component, append on a shared prefix): whatever the engine keeps
+		// of an expressed Interest must not depend on the application's slice afterwards
+		h.nameBuf = append(h.nameBuf[:0], name...)
+		name = h.nameBuf
 		cfg := &ndn.InterestConfig{CanBePrefix: cbp, MustBeFresh: f[3] == "2" || f[3] == "3"}
 		if f[4] != "-" {
 			cfg.Lifetime = utils.IdPtr(time.Duration(common.Atoi(f[4])) * time.Microsecond)
